@@ -52,6 +52,10 @@ CHECKS = {
             "DESIGN.md §3 C13",
             "Every workload of 1..3 queues x 0..3 objects per queue (sizes empty / 1 symbol / 2 blocks / 3 blocks) x multiplex_files 0..3 x interleave_blocks 1..3 x add order (high or low priority first) x No-Code / Reed-Solomon, and for each the addition+publication of a further object at every packet index into every queue, is run on the real Sender to quiescence; on every packet: no lower-queue packet while a published higher-queue object still has packets to send, first transfers start in add order per queue, at most max(1,multiplex) objects in transmission per queue, exactly-one-packet round-robin fairness between objects in flight, at most interleave_blocks partly sent blocks, blocks opened in increasing SBN, everything published is eventually sent.",
             "Trusted: rfc.rs decode; start times / pacing / carousel are excluded here (C14)."),
+    "C14": ("model_checking", "exhaustive enumeration of polling schedules (all sequences of virtual-clock advances) x timing configurations x trigger deviation on the real Sender", "seqx",
+            "DESIGN.md §3 C14",
+            "All 4^5 (quick) / 4^7 (thorough) polling schedules with clock steps {0,1,2,5} ticks of 250 ms, for every combination of start time {none, past, now, +3 ticks} x carousel {none, delay 0/2 ticks, interval 0/3 ticks} x target {none, WithinDuration 0 / 4 ticks, WithinTime past / +6 ticks, as-fast-as-possible} x size {empty, 1, 3 symbols} x a higher-priority object present or not, plus trigger_transfer_at(none | +2 ticks) at every poll index on a fixed sub-grid of schedules; oracle on every timed packet: never before the start time (configured or last accepted trigger), carousel turn never before end+delay / start+interval unless re-triggered, paced packet i never before start + i*target/n and sent by the first poll at or after its due time; no panic; after advancing the clock far enough every transfer completes.",
+            "Trusted: the virtual clock (time is an argument of every Sender call); carousel clause literal for max_transfer_count = 1 only (DESIGN §5)."),
 }
 
 NOT_YET = {}
